@@ -52,6 +52,14 @@ def variant_b(case):
     return docB
 
 
+def _diff_cells(t1, t2):
+    """cells of t1 that differ from t2 (None if the grids have different shapes)"""
+    g1, g2 = K.grid(t1), K.grid(t2)
+    if len(g1) != len(g2) or any(len(a) != len(b) for a, b in zip(g1, g2)):
+        return None
+    return [a for r1, r2 in zip(g1, g2) for a, b in zip(r1, r2) if a != b]
+
+
 def _reimport(text, tag):
     try:
         d2, e2 = kp.loads(text)
@@ -71,12 +79,14 @@ def check(case):
     d2 = _reimport(o1, 'kern')
     o2 = K.dumps(d2)
     if o2 != o1:
-        raise Bad('not-fixed-point', f'dumps(loads(dumps(d))) differs\n--- source\n{A}--- first export\n{o1}--- second export\n{o2}')
+        raise Bad('not-fixed-point', f'dumps(loads(dumps(d))) differs\n--- source\n{A}--- first export\n{o1}--- second export\n{o2}',
+                  cells=_diff_cells(o1, o2))
     k1 = K.dumps(d, encoding=kp.Encoding.eKern)
     d3 = _reimport(unheader(k1), 'ekern')
     k2 = K.dumps(d3, encoding=kp.Encoding.eKern)
     if k2 != k1:
-        raise Bad('ekern-not-fixed-point', f'--- source\n{A}--- ekern\n{k1}--- after strip/re-import/re-export\n{k2}')
+        raise Bad('ekern-not-fixed-point', f'--- source\n{A}--- ekern\n{k1}--- after strip/re-import/re-export\n{k2}',
+                  cells=_diff_cells(K.strip_sep(k1), K.strip_sep(k2)))
     if all(t == '**kern' for t in doc['types']):
         back = kp.get_kern_from_ekern(k1)
         d4 = _reimport(back, 'get_kern_from_ekern')
@@ -101,9 +111,19 @@ def check(case):
 _NONREST = set(G.SIG) - set(G.REST_SIG)
 
 
+def _is_chord_with_foreign_rest(cell):
+    members = cell.split(' ')
+    return len(members) >= 2 and any(re.fullmatch(r'[^a-gA-G]*r[^a-gA-G]*', m) and (set(m) & _NONREST) for m in members)
+
+
 def f_chordrest(case, p):
     """KF-CHORDREST: the exported text does not re-import because a rest inside a chord was exported with a signifier
     of another chord member that the rest grammar does not accept"""
+    if p.sig in ('not-fixed-point', 'ekern-not-fixed-point'):
+        # same root cause, other symptom: the inherited signifiers are accepted by the rest grammar but read
+        # differently there (e.g. '/j' is one rest decoration), so the second export differs - only in such chords
+        cells = p.data.get('cells')
+        return bool(cells) and all(_is_chord_with_foreign_rest(c) for c in cells)
     if p.sig not in ('kern-reimport-errors', 'ekern-reimport-errors', 'get_kern_from_ekern-reimport-errors'):
         return False
     errs = p.data.get('errs') or []
